@@ -42,7 +42,7 @@ def selsNodes : List Sel → List Node
 end
 
 def varDefNodes (v : VarDef) : List Node :=
-  .varDef v :: ((match v.default with | some d => valueNodes d | none => []) ++ [.typeNode v.type])
+  .varDef v :: ((match v.default with | some d => valueNodes d | none => []) ++ .typeNode v.type :: dirsNodes v.dirs)
 
 def defNodes : Def → List Node
   | .op kind name vars dirs ssid sels =>
@@ -89,6 +89,7 @@ where
     | .spread _ dirs => some dirs
     | .inline _ dirs => some dirs
     | .fragmentDef _ _ dirs => some dirs
+    | .varDef v => some v.dirs
     | _ => none
 /-- 5.5.1.1 Fragment name uniqueness -/
 def uniqueFragmentNames (d : Doc) : Prop := (fragNames d).Nodup
